@@ -411,6 +411,56 @@ func init() {
 				}
 			}
 		}
+		// ---- what Babble holds for block N must not change when later blocks are committed: consecutive commit
+		// calls whose responses all carry receipts (no other call in between), each response kept and compared again
+		// at the end
+		{
+			mk := func(ks []int, accepted []bool) proxy.CommitResponse {
+				var rs []hg.InternalTransactionReceipt
+				for i, k := range ks {
+					itx := sim.JoinTx(k)
+					if accepted[i] {
+						rs = append(rs, itx.AsAccepted())
+					} else {
+						rs = append(rs, itx.AsRefused())
+					}
+				}
+				return proxy.CommitResponse{StateHash: bin(32, byte(ks[0])), InternalTransactionReceipts: rs}
+			}
+			seq := []proxy.CommitResponse{mk([]int{5, 6}, []bool{true, false}), mk([]int{7}, []bool{false}), mk([]int{8, 9, 10}, []bool{false, true, true}), mk([]int{11, 12}, []bool{true, true})}
+			for _, side := range []string{"socket", "in-process"} {
+				var held []proxy.CommitResponse
+				var want []string
+				s1.set(nil)
+				for _, r := range seq {
+					evals++
+					raw, _ := json.Marshal(r)
+					want = append(want, string(raw))
+					var got proxy.CommitResponse
+					var err error
+					if side == "socket" {
+						h.reset()
+						h.resp = r
+						got, err = babbleSide.CommitBlock(blocks[bnames[0]])
+					} else {
+						hin.reset()
+						hin.resp = r
+						got, err = in.CommitBlock(blocks[bnames[0]])
+					}
+					if err != nil {
+						viol("error-although-undisturbed:CommitBlock", fmt.Sprintf("%s proxy: consecutive commit call failed: %v", side, err), nil)
+					}
+					held = append(held, got)
+				}
+				for i := range held {
+					raw, _ := json.Marshal(held[i])
+					if string(raw) != want[i] {
+						viol("retained-commit-response-changed", fmt.Sprintf("%s proxy: the response Babble received for commit %d of %d consecutive ones reads %s after the later commits; the application had returned %s", side, i+1, len(seq), short200(held[i]), want[i][:200]), map[string]interface{}{"side": side, "commit": i})
+					}
+				}
+			}
+			classes["commit|consecutive responses with receipts, retained"] = true
+		}
 		// ---- GetSnapshot / Restore / OnStateChanged
 		// (a nil snapshot is encoded as a JSON null result, which the jsonrpc client reports as an error: outside the grammar)
 		snaps := map[string][]byte{"empty": {}, "binary": {0x00, 0xff, '"', '\n'}, "64KB": bin(65536, 7)}
@@ -702,7 +752,7 @@ func init() {
 		cov["block_shapes"] = len(blocks)
 		cov["exhaustive"] = true
 		cov["samples"] = samples
-		cov["rule"] = "a real SocketAppProxy (Babble side) and SocketBabbleProxy (application side) over loopback TCP, and the InmemProxy, in front of the same recording handler; a TCP shim between them applies one fault action per request message. Enumerated: payload grammar (blocks with 0..3 transactions of shapes {empty, ASCII, binary with 0x00/0xff/quotes/newlines, invalid UTF-8, 64KB, 1MB}, nil vs empty slices, nil element, 0..2 internal transactions with receipts, 0..2 signatures) x commit responses {nil, empty, 32-byte, binary state hash; 0/2 receipts} x call {CommitBlock, GetSnapshot, Restore, OnStateChanged, SubmitTx sequences of 1..5 per connection, with a distinguishing last byte and - without faults - as exact payloads each submitted twice in a row (byte-identical consecutive and truly empty transactions)} x fault vector over the three attempts in {none, cut before request, cut after request before reply, cut after k reply bytes}^3, prefix-closed (quick: full vectors for a quarter of the block/response pairs, single-fault vectors for the rest). Oracle: the application handler receives a block with the same body hash, signatures and transaction bytes as in-process; Babble receives exactly the returned state hash and receipts; acknowledged transactions arrive byte-identical and in order; nil error only together with the genuine reply, error iff all attempts failed. Additionally the application side becomes unreachable (dials refused) for five consecutive calls, which must all fail, and comes back (the next call must succeed). Faults are connection closes / refusals, never delays"
+		cov["rule"] = "a real SocketAppProxy (Babble side) and SocketBabbleProxy (application side) over loopback TCP, and the InmemProxy, in front of the same recording handler; a TCP shim between them applies one fault action per request message. Enumerated: payload grammar (blocks with 0..3 transactions of shapes {empty, ASCII, binary with 0x00/0xff/quotes/newlines, invalid UTF-8, 64KB, 1MB}, nil vs empty slices, nil element, 0..2 internal transactions with receipts, 0..2 signatures) x commit responses {nil, empty, 32-byte, binary state hash; 0/2 receipts} x call {CommitBlock, GetSnapshot, Restore, OnStateChanged, SubmitTx sequences of 1..5 per connection, with a distinguishing last byte and - without faults - as exact payloads each submitted twice in a row (byte-identical consecutive and truly empty transactions)} x fault vector over the three attempts in {none, cut before request, cut after request before reply, cut after k reply bytes}^3, prefix-closed (quick: full vectors for a quarter of the block/response pairs, single-fault vectors for the rest). Oracle: the application handler receives a block with the same body hash, signatures and transaction bytes as in-process; Babble receives exactly the returned state hash and receipts; every response of four consecutive commits whose responses all carry receipts still reads as the application returned it after the last of them; acknowledged transactions arrive byte-identical and in order; nil error only together with the genuine reply, error iff all attempts failed. Additionally the application side becomes unreachable (dials refused) for five consecutive calls, which must all fail, and comes back (the next call must succeed). Faults are connection closes / refusals, never delays"
 		rep.Assumptions = []string{"retries after a lost reply may deliver a block / transaction to the other side more than once; the property does not speak about that and it is not flagged"}
 		return rep.Finish()
 	}
